@@ -28,8 +28,18 @@ CLAIMED["C17"] = dict(
          "over every 4-byte Result-Code word, and pairwise exclusivity for every code; each obligation is the unsat "
          "of its negation, required from z3 and cvc5 independently. CrossHair re-decides the same clauses through "
          "real DiameterMessage/ResultCodeAVP objects so that has_avp/attribute glue is covered.",
-    note="Trusted: z3 4.8.12, cvc5 1.0, the AST->SMT translator (validated each run on all library result-code "
+    note="Trusted: z3 5.1.0, cvc5 1.0, the AST->SMT translator (validated each run on all library result-code "
          "constants), CrossHair's models. E2 stubs has_avp()/result_code_avp.data (listed in evidence).")
+
+CLAIMED["C20"] = dict(
+    level="model_checking", technique=E1 + "; bit kernels also by " + E2, design="6/C20",
+    text="Bits: is_bit_set/set_bit/unset_bit are translated from source and decided for every 32-bit word at each "
+         "index by z3 and cvc5 (word defined by its binary digits, big-endian byte layout), and re-decided by CrossHair "
+         "through real VendorIdAVP/FeatureListAVP objects with symbolic (word, index) including out-of-range indices. "
+         "Address: literals rendered from symbolic digits/nibbles (all octet values; IPv6 nibble grid, '::' grid), bytes "
+         "input with symbolic 16-bit family. Time: bromelia's arithmetic for every (days, seconds) via a datetime stand-in.",
+    note="Trusted: CrossHair models, z3 5.1, cvc5 1.0, vf/ast2smt.py (validated per run), stdlib ipaddress/datetime. "
+         "Bounds: IPv6 with <=2 symbolic nibbles per query; IPv4 canonical spellings; Time days<=60000.")
 
 PENDING_REASON = "check not built yet in this session (planned in DESIGN.md section 6); no claim is made"
 NOT_APPLICABLE = {}
